@@ -117,14 +117,15 @@ Definition res_matches (m : mres) (x : rres) : bool :=
   | MFail, RErr => true
   | _, _ => false
   end.
-(* compare up to and including the first failure (model or observed); returns the frames not yet consumed *)
+(* compare every executed receive op with the model's; the executor stops at the first failure
+   unless the step asks it to read on (frame-level reads after a failed decryption, which
+   consumes the whole frame on both sides); returns the frames not yet consumed *)
 Fixpoint run_rops (s : stream) (fs : list frame) (ops : list rop) (obs : list rres) : stream * list frame * bool :=
   match ops, obs with
   | [], [] => (s, fs, true)
   | o :: ops', x :: obs' =>
       let '(s1, r, m) := run_rop s fs o in
-      if res_matches m x then
-        match m with MFail => (s1, r, true) | _ => run_rops s1 r ops' obs' end
+      if res_matches m x then run_rops s1 r ops' obs'
       else (s1, r, false)
   | _, _ => (s, fs, false)
   end.
